@@ -361,6 +361,131 @@ def native_fsdp(shapes, nranks, seed, steps=3, maxdim=3):
     return None
 
 
+_TLS = None
+
+
+def native_hsdp(R, S, ntpg, comm, cp, seed, steps=4):
+    """The real HSDPDistributor / DistributedShampoo on every rank of a (replicate R x shard S) mesh of simulated ranks (threads).
+    (1) all replicas of a shard hold bit-identical parameters after every step, for every communication setting;
+    (2) with FP32 communication every shard equals serial Shampoo on the pieces recovered from that shard (taken as independent parameters)."""
+    import threading
+    import torch
+    import torch.distributed as dist
+    from torch.distributed.device_mesh import DeviceMesh, init_device_mesh
+    from torch.distributed.fsdp import ShardingStrategy
+    from distributed_shampoo import shampoo_types as st
+    from distributed_shampoo.distributed_shampoo import DistributedShampoo
+    from distributed_shampoo.utils import shampoo_hsdp_distributor as hmod
+    from distributed_shampoo.utils.shampoo_fsdp_distributor import FSDPDistributor
+    from checks import dist as Dm
+    global _TLS
+    if _TLS is None:
+        _TLS = threading.local()
+
+    def per_thread_mesh(device_type, mesh, mesh_dim_names=None):
+        # threads emulate processes: the library's process-global device-mesh cache has to be per simulated rank
+        cache = _TLS.__dict__.setdefault("cache", {})
+        key = (device_type, mesh, mesh_dim_names)
+        if key not in cache:
+            cache[key] = DeviceMesh(device_type=device_type, mesh=mesh, mesh_dim_names=mesh_dim_names)
+        return cache[key]
+
+    shapes = [(5, 3), (7,), (2, 3, 4), (6, 2), (2, 2, 2, 3), (3,)] if seed % 2 == 0 else [(4, 5), (3,), (2, 3, 3), (7, 2), (5,), (2, 2, 2, 2)]
+    numels = [int(torch.Size(sh).numel()) for sh in shapes]
+    total = sum(numels)
+    per = -(-total // S)
+    offs = [0]
+    for n in numels:
+        offs.append(offs[-1] + n)
+
+    def ranges(sr):
+        lo, hi = sr * per, min((sr + 1) * per, total)
+        out = []
+        for j in range(len(shapes)):
+            a, b = max(lo, offs[j]) - offs[j], min(hi, offs[j + 1]) - offs[j]
+            out.append((a, b) if a < b else (0, 0))
+        return out
+
+    # presence histories that never leave a rank without any gradient-carrying block (that pattern is known finding F5 of C06)
+    hist = [[True] * len(shapes) for _ in range(steps)]
+    if steps >= 3:
+        hist[1][1] = False
+        hist[2][2 if seed % 2 == 0 else 4] = False
+    gp = torch.Generator().manual_seed(seed)
+    fulls = [torch.randn(sh, generator=gp) for sh in shapes]
+    gg = torch.Generator().manual_seed(seed + 1)
+    grads = [[torch.randn(sh, generator=gg) for sh in shapes] for _ in range(steps)]
+    kw = dict(lr=0.01, betas=(0.9, 1.0), epsilon=1e-8, momentum=0.5, weight_decay=0.01, max_preconditioner_dim=3, precondition_frequency=1,
+              start_preconditioning_step=1, use_merge_dims=True)
+    cdt = dict(f32=st.CommunicationDType.DEFAULT, bf16=st.CommunicationDType.BF16, f16=st.CommunicationDType.FP16)[comm]
+
+    def run(rank):
+        mesh = init_device_mesh("cpu", (R, S), mesh_dim_names=("replicate", "shard"))
+        sr = mesh.get_local_rank(1)
+        rg = ranges(sr)
+        params = [torch.nn.Parameter(fulls[j].flatten()[a:b].clone()) for j, (a, b) in enumerate(rg)]
+        meta = {p: st.FSDPParameterMetadata(fqn=f"p{j}", shape=torch.Size(shapes[j]), numel=numels[j], start_idx=a, end_idx=b, sharding_strategy=ShardingStrategy.HYBRID_SHARD)
+                for j, (p, (a, b)) in enumerate(zip(params, rg))}
+        opt = DistributedShampoo(params, distributed_config=st.HSDPShampooConfig(param_to_metadata=meta, device_mesh=mesh, communication_dtype=cdt,
+                                                                                num_trainers_per_group=ntpg, communicate_params=cp), **kw)
+        traj = []
+        for t in range(steps):
+            for j, (p, (a, b)) in enumerate(zip(params, rg)):
+                p.grad = None if (not hist[t][j] or a == b) else grads[t][j].flatten()[a:b].clone()
+            opt.step()
+            traj.append([p.detach().clone() for p in params])
+        return sr, traj
+
+    saved = hmod.get_device_mesh
+    hmod.get_device_mesh = per_thread_mesh
+    try:
+        try:
+            res = Dm.threaded(R * S, run, timeout=120)
+        except TimeoutError:
+            return "HANG: the simulated ranks did not finish (a collective is not matched on all ranks)"
+        except BaseException as e:  # noqa
+            return f"raised {type(e).__name__}: {str(e)[:300]}"
+    finally:
+        hmod.get_device_mesh = saved
+    # (1) replica agreement
+    by_shard = {}
+    for rank, (sr, traj) in res.items():
+        by_shard.setdefault(sr, []).append((rank, traj))
+    for sr, lst in by_shard.items():
+        r0, t0 = lst[0]
+        for rank, traj in lst[1:]:
+            for t in range(steps):
+                for j in range(len(shapes)):
+                    if not torch.equal(traj[t][j], t0[t][j]):
+                        return (f"step {t + 1}: replicas disagree on shard {sr} of parameter {j} (rank {rank} vs rank {r0}, max diff "
+                                f"{float((traj[t][j] - t0[t][j]).abs().max()):.3e}); comm={comm} communicate_params={cp}")
+    # (2) FP32 communication: equal to serial Shampoo on the recovered pieces of each shard
+    if comm == "f32":
+        for sr, lst in by_shard.items():
+            rg = ranges(sr)
+            pieces, pmap = [], []
+            for j, (a, b) in enumerate(rg):
+                if a == b:
+                    continue
+                flat = fulls[j].flatten()[a:b].clone()
+                for piece in FSDPDistributor._split_tensor_block_recovery(flat, torch.Size(shapes[j]), a, b):
+                    pieces.append(torch.nn.Parameter(piece.clone()))
+                    pmap.append((j, a + piece.storage_offset(), piece.numel(), tuple(piece.shape)))
+            ref = DistributedShampoo(pieces, **kw)
+            for t in range(steps):
+                for q, (j, off, n, shp) in zip(pieces, pmap):
+                    q.grad = grads[t][j].flatten()[off:off + n].reshape(shp).clone() if hist[t][j] else None
+                ref.step()
+                got = lst[0][1][t]
+                for q, (j, off, n, shp) in zip(pieces, pmap):
+                    a = rg[j][0]
+                    mine = got[j][off - a:off - a + n].reshape(shp)
+                    if not torch.allclose(mine, q.detach(), rtol=1e-5, atol=1e-6):
+                        return (f"step {t + 1}: shard {sr} of parameter {j} differs from serial Shampoo on its recovered piece of shape {shp} "
+                                f"(max diff {float((mine - q.detach()).abs().max()):.3e})")
+    return None
+
+
 def bounded(tier, seed):
     import random
     rng = random.Random(seed)
@@ -379,8 +504,21 @@ def bounded(tier, seed):
         if bad and len(viol) < 5:
             viol.append(dict(ob=f"bounded/fsdp-vs-serial[{shapes},ranks={nr},seed={seed * 100 + k}]", func="FSDPDistributor", input=dict(shapes=shapes, ranks=nr), text=bad, detail=bad,
                              replay=dict(kind="fsdp_case", shapes=[list(s) for s in shapes], ranks=nr, seed=seed * 100 + k)))
+    # HSDP on a 2-D mesh of simulated ranks: replica agreement for every communication setting, equality with serial for FP32
+    combos = [(2, 2, -1), (4, 1, 2)] if tier == "quick" else [(2, 2, -1), (3, 2, -1), (4, 1, 2), (4, 2, 2)]
+    for (R, S, ntpg), comm, cp in itertools.product(combos, ("f32", "bf16") if tier == "quick" else ("f32", "bf16", "f16"), (False, True)):
+        for k in range(1 if tier == "quick" else 2):
+            try:
+                bad = native_hsdp(R, S, ntpg, comm, cp, seed * 10 + k)
+            except BaseException as e:  # noqa
+                bad = f"raised {type(e).__name__}: {str(e)[:300]}"
+            evals += 1
+            distinct.add(("hsdp", R, S, ntpg, comm, cp, k))
+            if bad and len(viol) < 5:
+                viol.append(dict(ob=f"bounded/hsdp[{R}x{S},group={ntpg},{comm},params={cp},seed={seed * 10 + k}]", func="HSDPDistributor", input=dict(mesh=[R, S], num_trainers_per_group=ntpg, comm=comm, communicate_params=cp),
+                                 text=bad, detail=bad, replay=dict(kind="hsdp_case", R=R, S=S, ntpg=ntpg, comm=comm, cp=cp, seed=seed * 10 + k)))
     return dict(evaluations=evals, distinct_nontrivial=len(distinct),
-                rule="simulated flat-parameter shards (no FSDP wrapper: flat tensors + metadata) for 1..3 parameters of order 1..4 over 1..8 shard ranks incl. mid-row and empty shards, absent gradients: per rank FSDP Shampoo == serial Shampoo on the recovered pieces; across ranks every element updated exactly once; distinct = distinct (shapes, ranks, seed)",
+                rule="(HSDP: real HSDPDistributor on every rank of replicate x shard meshes of simulated ranks (threads): replicas bit-identical for FP32/BF16 communication x communicate_params on/off, FP32 equal to serial Shampoo on the recovered pieces) + simulated flat-parameter shards (no FSDP wrapper: flat tensors + metadata) for 1..3 parameters of order 1..4 over 1..8 shard ranks incl. mid-row and empty shards, absent gradients: per rank FSDP Shampoo == serial Shampoo on the recovered pieces; across ranks every element updated exactly once; distinct = distinct (shapes, ranks, seed)",
                 samples=[dict(shapes=[(7, 3), (5,)], ranks=4)], bound=f"{n} seeded layouts, 3 steps", violations=viol)
 
 
@@ -390,6 +528,9 @@ def replay(r):
 
 def replay_file(doc):
     rp = doc.get("replay_input") or {}
+    if rp.get("kind") == "hsdp_case":
+        bad = native_hsdp(rp["R"], rp["S"], rp["ntpg"], rp["comm"], rp["cp"], rp["seed"])
+        return bool(bad), f"{rp}: {bad}"
     if rp.get("kind") == "fsdp_case":
         bad = native_fsdp([tuple(s) for s in rp["shapes"]], rp["ranks"], rp["seed"])
         return bool(bad), f"{rp}: {bad}"
@@ -402,8 +543,16 @@ def replay_file(doc):
             if bad:
                 return True, f"shapes {shapes} over {nr} shard ranks: {bad}"
         return False, "simulated FSDP shards agree with serial Shampoo on the recovered pieces"
-    if rp.get("kind") == "ddp_native":
-        return False, "HSDP update obligations replay only on simulated ranks with a 2-D mesh (not available in the replayer)"
+    if rp.get("kind") in ("ddp_native", "ctor"):
+        # HSDP update / constructor obligations: the real distributor on 2-D meshes of simulated ranks
+        for (R, S, ntpg), comm, cp, k in itertools.product(((2, 2, -1), (4, 1, 2), (4, 2, 2)), ("bf16", "f16", "f32"), (True, False), (0, 1)):
+            try:
+                bad = native_hsdp(R, S, ntpg, comm, cp, k)
+            except BaseException as e:  # noqa
+                bad = f"raised {type(e).__name__}: {str(e)[:300]}"
+            if bad:
+                return True, f"mesh {R}x{S} trainers_per_group={ntpg} {comm} communicate_params={cp} seed {k}: {bad}"
+        return False, "real HSDP on simulated 2-D meshes: replicas agree and FP32 equals serial on the recovered pieces"
     return False, "no native replayer"
 
 
